@@ -308,7 +308,9 @@ func checkC14(tier string) int {
 		scripts: []string{"governance-strangers", "transfers", "staking"},
 		nhQ:     8, nhT: 50, blQ: 48, blT: 150,
 		params: func(i int, hseed int64) world.Params {
-			return world.Params{Frankenstein: 1, NumGenesisVals: 4, NumCandidates: 2, VotingDeadline: int64(6 + i%5), FundingDeadline: 12}
+			// (every fourth history: deadlines of 10000 blocks and more, as the option validation demands, so that
+			// configuration proposals can change the proposal options themselves; nothing expires there)
+			return world.Params{Frankenstein: 1, NumGenesisVals: 4, NumCandidates: 2, VotingDeadline: int64(6 + i%5), FundingDeadline: 12, ProdGov: i%4 == 3}
 		},
 		newMon: func(w *world.World) func(run *hist.Runner, blk *hist.Block) []mon.Finding {
 			m := mon.NewC14(w.P.Frankenstein)
